@@ -1,7 +1,7 @@
 (* Pinned statements of the C02 theorems. *)
 From Coq Require Import List String.
 From NV Require Import Contract.Data Contract.Gen Contract.Apply Contract.Checks
-  Contract.CheckProofs Contract.GenProofs Props.C02.
+  Contract.CheckProofs Contract.GenProofs Contract.GenChecksProofs Props.C02.
 Import ListNotations.
 
 Check (C02_simplify_keeps_negative : forall T, wk T [] = true ->
@@ -40,3 +40,9 @@ Check (C02_static_equiv_arrow_partial : forall A B, first_order A = true -> firs
 Check (C02_static_equiv_data : forall T v,
   first_order T = true -> wf_ty T = true -> no_excl T = true -> member T v = true ->
   contract_static_of T = Some CDyn /\ exists v', check T v = Ok v' /\ dv_equiv v' v).
+Check (C02_cchecks_subcontract : forall T vars p sy c sy' env kenv,
+  subcontract T vars p sy = Some (c, sy') -> J vars env kenv sy ->
+  sy <= sy' /\ cchecks c p kenv = map erase (checks T p env)).
+Check (C02_static_contract_keeps_negative : forall T c cs, wk T [] = true ->
+  contract_of T = Some c -> contract_static_of T = Some cs ->
+  negs (cchecks cs Pos []) = negs (cchecks c Pos [])).
